@@ -1,7 +1,7 @@
 //verif:pkg .
 //verif:use fakes_mcp
 //verif:use fakes_client
-//verif:bound one tools/call over Streamable HTTP with an SSE answer whose handler emits k <= 2 (thorough 3) notifications (method in {n/a, n/b}, symbolic text, optional _meta with a symbolic token) before returning; every subset of {n/a, n/b} registered on the client; time.Now is an arbitrary non-decreasing clock; also the JSON-answer configuration (notifications dropped, result unaffected)
+//verif:bound one tools/call over Streamable HTTP with an SSE answer whose handler emits k <= 2 (thorough 3) notifications (method in {n/a, n/b}, symbolic text, optional _meta with a symbolic token); one notification whose _meta is given as map[string]interface{}, as the library's Meta type or as map[string]string, with or without other fields, through SendCustomNotification or SendNotification before returning; every subset of {n/a, n/b} registered on the client; time.Now is an arbitrary non-decreasing clock; also the JSON-answer configuration (notifications dropped, result unaffected)
 //verif:assume wall-clock timing and concurrent calls on one client are outside this kernel
 package mcp
 
@@ -52,6 +52,8 @@ func H_C10_in_call_notifications() {
 	metas := make([]string, k)
 	hasMeta := make([]bool, k)
 	shapes := make([]int, k)
+	metaKinds := make([]int, k)
+	metaKind := 0 // the main harness gives _meta as a plain map; H_C10_meta_types varies the Go type
 	for i := 0; i < k; i++ {
 		methods[i] = []string{"n/a", "n/b"}[vChoice("method", 2)]
 		// shape of the params: 0 fields only, 1 fields and _meta, 2 _meta only, 3 empty
@@ -62,6 +64,7 @@ func H_C10_in_call_notifications() {
 		hasMeta[i] = shapes[i] == 1 || shapes[i] == 2
 		if hasMeta[i] {
 			metas[i] = vString("tok", 6)
+			metaKinds[i] = metaKind
 		}
 	}
 	sendErrs := 0
@@ -77,7 +80,17 @@ func H_C10_in_call_notifications() {
 				params["text"] = texts[i]
 			}
 			if hasMeta[i] {
-				params["_meta"] = map[string]interface{}{"tok": metas[i]}
+				// the Go type the caller uses for _meta: a plain map, the library's Meta type, or a map of
+				// strings (the last two are not lifted into Params.Meta by the sender and travel inside the
+				// additional fields)
+				switch metaKinds[i] {
+				case 0:
+					params["_meta"] = map[string]interface{}{"tok": metas[i]}
+				case 1:
+					params["_meta"] = Meta{"tok": metas[i]}
+				default:
+					params["_meta"] = map[string]string{"tok": metas[i]}
+				}
 			}
 			if err := sender.SendCustomNotification(methods[i], params); err != nil {
 				sendErrs++
@@ -148,6 +161,74 @@ func H_C10_in_call_notifications() {
 			for j := i + 1; j < len(ids); j++ {
 				vAssert("event-ids-distinct", ids[i] != ids[j])
 			}
+		}
+	}
+	vReach("end")
+}
+
+// H_C10_meta_types: one notification whose _meta is given as a plain map, as the library's Meta type or as a
+// map of strings, with or without further fields, through SendCustomNotification and through SendNotification
+// with hand-built params: the client handler sees the token either way.
+func H_C10_meta_types() {
+	vRandConcrete(true)
+	srv := NewServer("srv", "1.0", WithPostSSEEnabled(true), WithGetSSEEnabled(false))
+	bridge := &c10Bridge{inner: &verifBridge{handler: srv.httpHandler}}
+	c, err := NewClient("http://h.example/mcp", Implementation{Name: "c", Version: "1"}, WithHTTPReqHandler(bridge), WithClientGetSSEEnabled(false))
+	if err != nil {
+		panic(err)
+	}
+	kind := vChoice("metaType", 3)
+	withFields := vBool("withFields")
+	via := vChoice("via", 2)
+	tok := vString("tok", 6)
+	sendErr := error(nil)
+	srv.RegisterTool(NewTool("t"), func(ctx context.Context, r *CallToolRequest) (*CallToolResult, error) {
+		sender, ok := GetNotificationSender(ctx)
+		if !ok {
+			return nil, context.Canceled
+		}
+		params := map[string]interface{}{}
+		if withFields {
+			params["text"] = "x"
+		}
+		switch kind {
+		case 0:
+			params["_meta"] = map[string]interface{}{"tok": tok}
+		case 1:
+			params["_meta"] = Meta{"tok": tok}
+		default:
+			params["_meta"] = map[string]string{"tok": tok}
+		}
+		if via == 0 {
+			sendErr = sender.SendCustomNotification("n/a", params)
+		} else {
+			sendErr = sender.SendNotification(&Notification{Method: "n/a", Params: NotificationParams{AdditionalFields: params}})
+		}
+		return NewTextResult("done"), nil
+	})
+	var metas []interface{}
+	var nfields []int
+	c.RegisterNotificationHandler("n/a", func(n *JSONRPCNotification) error {
+		var meta interface{}
+		if n.Params.Meta != nil {
+			meta = n.Params.Meta["tok"]
+		}
+		metas = append(metas, meta)
+		nfields = append(nfields, len(n.Params.AdditionalFields))
+		return nil
+	})
+	_, ierr := c.Initialize(context.Background(), &InitializeRequest{})
+	vAssume(ierr == nil)
+	res, cerr := c.CallTool(context.Background(), &CallToolRequest{Params: CallToolParams{Name: "t"}})
+	vAssert("result-arrives", vAnd(cerr == nil, res != nil))
+	vAssert("send-ok", sendErr == nil)
+	vAssert("delivered-once", len(metas) == 1)
+	if len(metas) == 1 {
+		vAssert("meta-intact", metas[0] == tok)
+		if withFields {
+			vAssert("fields-intact", nfields[0] == 1)
+		} else {
+			vAssert("no-fields-invented", nfields[0] == 0)
 		}
 	}
 	vReach("end")
